@@ -637,6 +637,10 @@ static void run_forked(case_fn fn, void* ctx, int cpu_limit_s, int wall_limit_s,
         setrlimit(RLIMIT_CPU, &rl);
         struct rlimit core = {0, 0};
         setrlimit(RLIMIT_CORE, &core);
+        /* a small stack: unbounded recursion on nested input overflows it quickly (the limit applies to the
+         * growth of this process's stack from now on) */
+        struct rlimit stk = {(rlim_t)1 << 20, (rlim_t)1 << 20};
+        setrlimit(RLIMIT_STACK, &stk);
         FILE* out = fdopen(pfd[1], "w");
         fn(ctx, out);
         int leak = __lsan_do_recoverable_leak_check();
